@@ -117,6 +117,8 @@ def gen_options(r, s):
         o.append("-t")
     if r.random() < 0.2:
         o.append("--power-stats")
+    if r.random() < 0.08:
+        o.append("--flex_ts_fix")       # README "troubleshooting": moves device slices of a job, removes nothing
     if r.random() < 0.35:
         starts = sorted(t["start"] for t in s.truth.values())
         lim = {}
